@@ -17,6 +17,8 @@ func main() {
 	switch os.Args[1] {
 	case "seq":
 		err = cmdSeq(os.Args[2:])
+	case "conc":
+		err = cmdConc(os.Args[2:])
 	default:
 		err = fmt.Errorf("unknown command %s", os.Args[1])
 	}
